@@ -310,7 +310,11 @@ func pipeCancelClass(j []string) string {
 	return fmt.Sprintf("N%s/cancel/%c-%s/%s", j[0], o.kind, at, mode)
 }
 
-// pipeCancelRun: the cancel jobs run in a child process; returns the observed output per job index.
+// pipeCancelRun: the cancel jobs run in child processes; returns the observed output per job index.
+// A child that dies (a panic in a pipeline goroutine cannot be recovered) leaves the cases it was running as
+// suspects: each is re-run alone up to three times; one that kills its child again is reported as a panic with
+// the head of the goroutine dump; if none does, the first suspect carries the (then unattributed) panic. The
+// cases the dead child had not started go to the next child.
 func pipeCancelRun(r *hx.Run, jobs [][]string) map[int]string {
 	work := os.Getenv("VERIF_WORK")
 	if work == "" {
@@ -318,30 +322,63 @@ func pipeCancelRun(r *hx.Run, jobs [][]string) map[int]string {
 	}
 	outPath := fmt.Sprintf("%s/pipeline.child.%d.out", work, os.Getpid())
 	defer os.Remove(outPath)
-	got := map[int]string{}
-	dump := runChild("pipeline", r, outPath, "", got)
-	if len(got) < len(jobs) {
-		r.Notes = append(r.Notes, "pipeline cancel child died; goroutine dump head: "+dump)
-		tried := 0
-		for i := range jobs {
-			if _, ok := got[i]; ok || tried >= 24 {
-				continue
+	clean := func(d string) string {
+		d = strings.Map(func(c rune) rune {
+			if c == '\t' || c == '\n' || c == ';' || c == ',' || c == '=' {
+				return '_'
 			}
-			tried++
-			d := runChild("pipeline", r, outPath, strconv.Itoa(i), got)
-			if _, ok := got[i]; !ok {
-				d = strings.Map(func(c rune) rune {
-					if c == '\t' || c == '\n' || c == ';' || c == ',' || c == '=' {
-						return '_'
-					}
-					return c
-				}, strings.Join(strings.Fields(d), "_"))
-				if len(d) > 200 {
-					d = d[:200]
-				}
-				got[i] = "w=-;e=PANIC:" + d + ";d=0;c=0;s=0;t=-"
+			return c
+		}, strings.Join(strings.Fields(d), "_"))
+		if len(d) > 200 {
+			d = d[:200]
+		}
+		return d
+	}
+	panicObs := func(d string) string { return "w=-;e=PANIC:" + clean(d) + ";d=0;c=0;s=0;t=-" }
+	got := map[int]string{}
+	pending := make([]int, len(jobs))
+	for i := range pending {
+		pending[i] = i
+	}
+	for deaths := 0; len(pending) > 0 && deaths < 4; {
+		idx := make([]string, len(pending))
+		for k, i := range pending {
+			idx[k] = strconv.Itoa(i)
+		}
+		dump := runChild("pipeline", r, outPath, strings.Join(idx, ","), got)
+		var suspects, rest []int
+		for _, i := range pending {
+			switch obs, ok := got[i]; {
+			case !ok:
+				rest = append(rest, i)
+			case obs == "START":
+				delete(got, i)
+				suspects = append(suspects, i)
 			}
 		}
+		if len(suspects) == 0 && len(rest) == len(pending) { // the child did not even start
+			r.Notes = append(r.Notes, "pipeline cancel child could not run: "+clean(dump))
+			break
+		}
+		if len(suspects) > 0 {
+			deaths++
+			r.Notes = append(r.Notes, fmt.Sprintf("pipeline cancel child died with %d cases running; goroutine dump head: %s", len(suspects), clean(dump)))
+			attributed := false
+			for _, i := range suspects {
+				for try := 0; try < 3; try++ {
+					d := runChild("pipeline", r, outPath, strconv.Itoa(i), got)
+					if obs, ok := got[i]; !ok || obs == "START" {
+						got[i] = panicObs(d)
+						attributed = true
+						break
+					}
+				}
+			}
+			if !attributed {
+				got[suspects[0]] = panicObs("unattributed_one_of_" + strconv.Itoa(len(suspects)) + "_running_cases_" + dump)
+			}
+		}
+		pending = rest
 	}
 	return got
 }
@@ -358,10 +395,11 @@ func pipeCancelChild(jobs [][]string, outPath, only string) {
 		fmt.Fprintf(f, "%d\t%s\n", i, obs)
 		fmu.Unlock()
 	}
-	if only != "" {
-		i, _ := strconv.Atoi(only)
-		emit(i, runPipe(jobs[i]))
-		return
+	var todo []int
+	for _, x := range strings.Split(only, ",") {
+		if i, err := strconv.Atoi(x); err == nil && i >= 0 && i < len(jobs) {
+			todo = append(todo, i)
+		}
 	}
 	var wg sync.WaitGroup
 	var next int64 = -1
@@ -370,11 +408,12 @@ func pipeCancelChild(jobs [][]string, outPath, only string) {
 		go func() {
 			defer wg.Done()
 			for {
-				i := int(atomic.AddInt64(&next, 1))
-				if i >= len(jobs) {
+				k := int(atomic.AddInt64(&next, 1))
+				if k >= len(todo) {
 					return
 				}
-				emit(i, runPipe(jobs[i]))
+				emit(todo[k], "START")
+				emit(todo[k], runPipe(jobs[todo[k]]))
 			}
 		}()
 	}
